@@ -205,6 +205,139 @@ func propValuesAsWritten(args []string) string {
 	return ""
 }
 
+// propStructureAsWritten (C01, "each … nesting level appears … as written … and nothing else is set"),
+// judged on any accepted statement text (no parameters, nothing but blanks and semicolons after it):
+//   - the tree has exactly one ParenExpr per grouping parenthesis of the text. The text is tokenised with
+//     the scanner; a `(` opens a call when it directly follows an identifier or DISTINCT token, a subquery
+//     when SELECT is the next significant token, and a grouping otherwise. Texts with a `/` are skipped
+//     (a regex body would have to be tokenised by ScanRegex).
+//   - every SELECT at every nesting level is a raw query exactly when none of its own fields contains a
+//     call (round-3 seeded changes C01-2: nested parentheses collapsed; C01-3: the flag of an outer SELECT
+//     taken from the field list of a subquery).
+func propStructureAsWritten(args []string) string {
+	text, params, ok := decStmtArgs(args)
+	if !ok || len(params) > 0 || strings.Contains(text, "$") {
+		return ""
+	}
+	ps := newStmtParser(text, nil)
+	stmt, err := ps.ParseStatement()
+	if err != nil || stmt == nil {
+		return ""
+	}
+	if q, err := ps.ParseQuery(); err != nil || len(q.Statements) != 0 {
+		return ""
+	}
+	// IsRawQuery at every level (reflective traversal: Walk does not enter every statement type)
+	var bad string
+	parens := 0
+	reflectNodes(reflect.ValueOf(stmt), func(n interface{}) {
+		if _, ok := n.(*influxql.ParenExpr); ok {
+			parens++
+		}
+		sel, ok := n.(*influxql.SelectStatement)
+		if !ok || bad != "" {
+			return
+		}
+		hasCall := false
+		for _, f := range sel.Fields {
+			reflectNodes(reflect.ValueOf(f.Expr), func(m interface{}) {
+				if _, ok := m.(*influxql.Call); ok {
+					hasCall = true
+				}
+			})
+		}
+		if sel.IsRawQuery == hasCall {
+			bad = fmt.Sprintf("%q: IsRawQuery = %v for the SELECT with fields %s (contains a call: %v)", text, sel.IsRawQuery, sel.Fields.String(), hasCall)
+		}
+	})
+	if bad != "" {
+		return bad
+	}
+	// parentheses
+	if strings.Contains(text, "/") {
+		return ""
+	}
+	type tk struct {
+		tok influxql.Token
+		ws  bool // white space or comment directly before it
+	}
+	var toks []tk
+	sc := influxql.NewScanner(strings.NewReader(text))
+	gap := false
+	for i := 0; i < len(text)+8; i++ {
+		tok, _, _ := sc.Scan()
+		if tok == influxql.EOF {
+			break
+		}
+		if tok == influxql.WS || tok == influxql.COMMENT {
+			gap = true
+			continue
+		}
+		if tok == influxql.ILLEGAL || tok == influxql.BADSTRING || tok == influxql.BADESCAPE {
+			return ""
+		}
+		toks = append(toks, tk{tok, gap})
+		gap = false
+	}
+	grouping := 0
+	for i, t := range toks {
+		if t.tok != influxql.LPAREN {
+			continue
+		}
+		if i > 0 && !t.ws && (toks[i-1].tok == influxql.IDENT || toks[i-1].tok == influxql.DISTINCT) {
+			continue // call, fill(), tz(), distinct()
+		}
+		if i+1 < len(toks) && toks[i+1].tok == influxql.SELECT {
+			continue // subquery
+		}
+		if i > 0 && toks[i-1].tok == influxql.IN {
+			continue // WITH KEY IN (…)
+		}
+		grouping++
+	}
+	if parens != grouping {
+		return fmt.Sprintf("%q has %d grouping parentheses, the tree has %d ParenExpr nodes: %s", text, grouping, parens, stmt.String())
+	}
+	return ""
+}
+
+// reflectNodes calls visit on every non-nil pointer reachable from v through exported fields, slices and
+// interfaces (each once per occurrence; the AST is a tree). Unexported fields (memo fields, compiled
+// regular expressions, locations) are not entered.
+func reflectNodes(v reflect.Value, visit func(n interface{})) {
+	switch v.Kind() {
+	case reflect.Interface:
+		if !v.IsNil() {
+			reflectNodes(v.Elem(), visit)
+		}
+	case reflect.Ptr:
+		if v.IsNil() {
+			return
+		}
+		if t := v.Type().Elem(); t.PkgPath() != "github.com/influxdata/influxql" {
+			return // *regexp.Regexp, *time.Location
+		}
+		if v.CanInterface() {
+			visit(v.Interface())
+		}
+		reflectNodes(v.Elem(), visit)
+	case reflect.Struct:
+		if v.Type().PkgPath() != "github.com/influxdata/influxql" {
+			return
+		}
+		for i := 0; i < v.NumField(); i++ {
+			if v.Type().Field(i).PkgPath != "" {
+				continue
+			}
+			reflectNodes(v.Field(i), visit)
+		}
+	case reflect.Slice:
+		for i := 0; i < v.Len(); i++ {
+			reflectNodes(v.Index(i), visit)
+		}
+	}
+}
+
 var spaceCommaAfterRegex = regexp.MustCompile(`/[ \t\r\n]+,`)
 
 // knownAccepts classifies a rejected grammar-conforming text by repair: the text is accepted once
@@ -331,6 +464,9 @@ func init() {
 				return v
 			}
 			if v := propValuesAsWritten(args); v != "" {
+				return v
+			}
+			if v := propStructureAsWritten(args); v != "" {
 				return v
 			}
 			return propAccepts(parseS)(args)
